@@ -239,6 +239,13 @@ def determinism_obligations(rep, modules=('yp_generator', 'yp_prolog_visitor', '
                     probs.append('line %d: %s' % (n.lineno, ast.unparse(n)[:40]))
             rep.add_checked('%s.%s.deterministic.no_choice_primitive' % (m, q), not probs, '; '.join(probs), 'ast',
                             function='%s.%s' % (m, q), witness=probs or None)
+            # the function that runs is the def: a wrapper installed by a decorator (a cache, a registry) is state that survives
+            # the call - the stateless ones used by the code base are listed
+            decs = [ast.unparse(d) for d in fn.decorator_list]
+            bad = [d for d in decs if not (d in ('staticmethod', 'classmethod', 'property', 'contextlib.contextmanager')
+                                           or d.startswith('click.'))]
+            rep.add_checked('%s.%s.deterministic.no_stateful_wrapper' % (m, q), not bad,
+                            'decorated with ' + ', '.join(bad) if bad else '', 'ast', function='%s.%s' % (m, q), witness=bad or None)
         imports = [a.name for s in mod.tree.body if isinstance(s, ast.Import) for a in s.names] + \
                   [s.module for s in mod.tree.body if isinstance(s, ast.ImportFrom) and s.module]
         bad = [i for i in imports if i.split('.')[0] in NONDET_MODULES - {'os'}]
